@@ -26,6 +26,7 @@ class SXF(SX):
         self.value_arg = 2
         self.sign_insts = set()
         self.reads = {}          # loop key -> dict(ok, detail, where, n)
+        self.guard_opaque_reads = False     # the reads are judged below with the cursor ranges of c13_fi, not by SX
 
     # (a) pair relations between loop-head variables
     def candidates(self, fn, L, st, h, hs, E0, hE):
@@ -92,6 +93,8 @@ class SXF(SX):
                 ok = cs.entails_le(0, p0.off) and cs.entails_le(p0.off + c0, size)
                 r = self.reads.setdefault((fn.name, key), {'ok': True, 'detail': None, 'where': info['call'].where(), 'n': 0})
                 r['n'] += 1
+                if not ok:
+                    loop_values(self, [c0, p0.off])
                 if not ok and r['ok']:
                     r['ok'] = False
                     r['detail'] = 'the emission loop reads %r bytes from offset %r of a %d-byte local buffer: not provably ' \
